@@ -96,6 +96,7 @@ func (c *SumDiffCommand) execute(tow io.Writer) (err error) {
 
 func (c *SumDiffCommand) sumDiffItem(item string, tow io.Writer) error {
 	now := whispertool.TimestampFromStdTime(time.Now())
+	now = verifNow(now)
 	var until whispertool.Timestamp
 	if c.Until == 0 {
 		until = now
